@@ -289,6 +289,17 @@ func runC08(c C08Case) string {
 				if e := r.Err(); e != nil {
 					return fmt.Sprintf("Next() returned false with Err()=%v where the full traversal saw a clean end of this level", e)
 				}
+				// at the end of a level there is no current value: no type, no field
+				// name, no annotations (documented)
+				if ty := r.Type(); ty != ion.NoType {
+					return fmt.Sprintf("after the last value of a level: Type() = %v, want NoType", ty)
+				}
+				if fn, _ := r.FieldName(); fn != nil {
+					return fmt.Sprintf("after the last value of a level: FieldName() = %v, want nil", drive.SymOf(fn))
+				}
+				if as, _ := r.Annotations(); len(as) != 0 {
+					return fmt.Sprintf("after the last value of a level: Annotations() = %v", as)
+				}
 				return ""
 			}
 			f.on = true
